@@ -554,3 +554,147 @@ fn bounded_choose_active_members() {
         j += 1;
     }
 }
+
+// ---------------------------------------------------------------- conformance of the assumed hoist contracts (contracts/prelude/hoists.rs)
+// Each harness evaluates the very expression the helper's external_body holds, on real std iterators, and asserts the helper's
+// `ensures` clause - for every vector of up to 4 elements, every start/end position and every predicate (a symbolic truth table
+// over the elements' low two bits).  A failure here means the *prelude* is wrong (not foca); it cannot be caused by a change to /repo.
+fn any_vec4() -> alloc::vec::Vec<u8> {
+    let n: usize = kani::any();
+    kani::assume(n <= 4);
+    let mut v = alloc::vec::Vec::new();
+    let mut i = 0;
+    while i < n {
+        v.push(kani::any());
+        i += 1;
+    }
+    v
+}
+
+#[kani::proof]
+#[kani::unwind(6)]
+fn hoist_h4_skip_position() {
+    let v = any_vec4();
+    let n: usize = kani::any();
+    kani::assume(n <= 6);
+    let t: [bool; 4] = kani::any();
+    let p = |m: &u8| t[(*m & 3) as usize];
+    let r = v.iter().skip(n).position(|m| p(m));
+    match r {
+        Some(k) => {
+            assert!(n + k < v.len());
+            assert!(p(&v[n + k]));
+            let mut j = n;
+            while j < n + k {
+                assert!(!p(&v[j]));
+                j += 1;
+            }
+        }
+        None => {
+            let mut j = n;
+            while j < v.len() {
+                assert!(!p(&v[j]));
+                j += 1;
+            }
+        }
+    }
+}
+
+#[kani::proof]
+#[kani::unwind(6)]
+fn hoist_h5_take_position() {
+    let v = any_vec4();
+    let n: usize = kani::any();
+    let t: [bool; 4] = kani::any();
+    let p = |m: &u8| t[(*m & 3) as usize];
+    let r = v.iter().take(n).position(|m| p(m));
+    match r {
+        Some(k) => {
+            assert!(k < n && k < v.len());
+            assert!(p(&v[k]));
+            let mut j = 0;
+            while j < k {
+                assert!(!p(&v[j]));
+                j += 1;
+            }
+        }
+        None => {
+            let mut j = 0;
+            while j < n && j < v.len() {
+                assert!(!p(&v[j]));
+                j += 1;
+            }
+        }
+    }
+}
+
+#[kani::proof]
+#[kani::unwind(6)]
+fn hoist_h6_h7_position_any() {
+    let v = any_vec4();
+    let t: [bool; 4] = kani::any();
+    let p = |m: &u8| t[(*m & 3) as usize];
+    let r = v.iter().position(|m| p(m));
+    let a = v.iter().any(|m| p(m));
+    match r {
+        Some(k) => {
+            assert!(k < v.len());
+            assert!(p(&v[k]));
+            let mut j = 0;
+            while j < k {
+                assert!(!p(&v[j]));
+                j += 1;
+            }
+            assert!(a);
+        }
+        None => {
+            let mut j = 0;
+            while j < v.len() {
+                assert!(!p(&v[j]));
+                j += 1;
+            }
+            assert!(!a);
+        }
+    }
+}
+
+#[kani::proof]
+#[kani::unwind(6)]
+fn hoist_h1_iter_mut_find() {
+    let mut v = any_vec4();
+    let before = v.clone();
+    let t: [bool; 4] = kani::any();
+    let p = |m: &u8| t[(*m & 3) as usize];
+    let w: u8 = kani::any();
+    let mut hit = None;
+    {
+        let r = v.iter_mut().find(|m| p(&**m));
+        if let Some(m) = r {
+            hit = Some(*m);
+            *m = w; // a write through the returned reference lands in exactly the found slot
+        }
+    }
+    let mut first = None;
+    let mut j = 0;
+    while j < before.len() {
+        if first.is_none() && p(&before[j]) {
+            first = Some(j);
+        }
+        j += 1;
+    }
+    match first {
+        Some(k) => {
+            assert!(hit == Some(before[k]));
+            assert!(v.len() == before.len());
+            let mut j = 0;
+            while j < v.len() {
+                assert!(v[j] == if j == k { w } else { before[j] });
+                j += 1;
+            }
+        }
+        None => {
+            assert!(hit.is_none());
+            assert!(v == before);
+        }
+    }
+}
